@@ -13,6 +13,7 @@ FAMILIES = {
     "priority": ("grow_priority", "core/priority + core/infosync: exchange, calculateResult, agreed result"),
     "broadcaster": ("grow_broadcaster", "core/bcast: duty type x signed-data kind -> beacon API submission"),
     "dkgsync": ("grow_dkgsync", "dkg/sync: connection / step barrier protocol"),
+    "vapi": ("grow_vapi", "core/validatorapi: DV-key attribution, partial-signature gate, per-duty forwarding, pubshare translation"),
     "nodesigs": ("grow_nodesigs", "dkg node signatures and lock-hash / deposit partial signature aggregation"),
 }
 
